@@ -4,7 +4,10 @@ page in a mutex-protected map) as an interleaving LTS.  One step = one atomic op
 critical section under the shard's map mutex (`get_or_create`, the body of `try_cleanup` after
 `entry.release()`), exactly the yield points installed by the hooks:
   get_or_create | rw acquire | force_unlock | entry.release() | cleanup under the map lock.
-`parking_lot::RwLock` is assumed correct: the acquire step is enabled iff the lock is compatible.
+`parking_lot::RwLock` is assumed correct (trusted): a thread obtains the lock only when it is
+compatible (no writer for a reader; no writer and no reader for a writer); as parking_lot is
+task-fair, a FRESH read attempt also queues behind an already waiting writer.  A thread whose
+attempt cannot be granted moves to `waiting`; it becomes `held` by a later `step` once compatible.
 `fixed = true` is the repaired `try_cleanup` (remove the map entry only if the map still points at
 THIS entry); `fixed = false` is the pinned code (remove by page id).
 -/
@@ -27,6 +30,8 @@ inductive Pc where
   | getOrCreate (page : Nat) (w : Bool)
   /-- has the entry (ref counted), about to `entry.lock.read()/write()` -/
   | acquire (page e : Nat) (w : Bool)
+  /-- inside `entry.lock.read()/write()`, parked in the RwLock's queue -/
+  | waiting (page e : Nat) (w : Bool)
   /-- holds the lock (guard alive) -/
   | held (page e : Nat) (w : Bool)
   /-- guard dropped: `force_unlock` done, about to `entry.release()` (fetch_sub) -/
@@ -84,14 +89,28 @@ def step (s : State) (tid : Nat) : Option State :=
       match s.entries[e]? with
       | none => none
       | some en =>
+        let writerWaiting := s.threads.any (fun x => x.pc == .waiting p e true)
         if w then
           if en.readers = 0 ∧ en.writer = false then
             some (setThread (modEntry s e (fun x => { x with writer := true })) tid { t with pc := .held p e true })
-          else none        -- blocked
+          else some (setThread s tid { t with pc := .waiting p e true })
+        else
+          if en.writer = false ∧ writerWaiting = false then
+            some (setThread (modEntry s e (fun x => { x with readers := x.readers + 1 })) tid { t with pc := .held p e false })
+          else some (setThread s tid { t with pc := .waiting p e false })
+    | .waiting p e w =>
+      -- woken by the lock: only possible when compatible; otherwise the step is disabled
+      match s.entries[e]? with
+      | none => none
+      | some en =>
+        if w then
+          if en.readers = 0 ∧ en.writer = false then
+            some (setThread (modEntry s e (fun x => { x with writer := true })) tid { t with pc := .held p e true })
+          else none
         else
           if en.writer = false then
             some (setThread (modEntry s e (fun x => { x with readers := x.readers + 1 })) tid { t with pc := .held p e false })
-          else none        -- blocked
+          else none
     | .held p e w =>
       -- drop of the guard: force_unlock
       some (setThread (modEntry s e (fun x => if w then { x with writer := false }
